@@ -87,6 +87,10 @@ mod replay_entry {
             super::hist_naming::replay_file();
             return;
         }
+        if module == "c11index" {
+            crate::naming::core::verif_priv::hist::replay_file();
+            return;
+        }
         if module == "c11" {
             super::hist_service::replay_file();
             return;
